@@ -79,4 +79,43 @@ theorem readonly_ops (d : D) (o : Op)
   unfold Driver.step
   rcases hk with hk | hk | hk | hk | hk <;> simp only [hk]
 
+/-- the transactions of a block, one after the other -/
+def runTxs (d : D) (ops : List Op) : D := ops.foldl (fun d o => (runTx d o).1) d
+
+/-- **A failed transaction in isolation** (what the `a.failiso` runs observe on the real application): if the last
+    transaction of a block fails, the block ends in the state it would have ended in without that transaction.  Ante-chain
+    bookkeeping outside the four modules (the signer's account sequence) is not part of `D`. -/
+theorem failed_last_tx_block_same (d : D) (ops : List Op) (o : Op)
+    (hf : (runTx (runTxs d ops) o).2 ≠ "=> ok") : runTxs d (ops ++ [o]) = runTxs d ops := by
+  unfold runTxs at *
+  rw [List.foldl_append]
+  simp only [List.foldl_cons, List.foldl_nil]
+  exact failed_tx_changes_nothing _ o hf
+
+/-- … and anywhere in the block: removing every failing transaction changes nothing -/
+theorem failed_txs_can_be_dropped (d : D) : ∀ (ops : List Op),
+    runTxs d ops = runTxs d (ops.foldl (fun (acc : List Op × D) o =>
+      if (runTx acc.2 o).2 = "=> ok" then (acc.1 ++ [o], (runTx acc.2 o).1) else acc) ([], d)).1 := by
+  intro ops
+  suffices h : ∀ (ops : List Op) (pre : List Op) (dd : D), runTxs d pre = dd →
+      runTxs dd ops = runTxs d (ops.foldl (fun (acc : List Op × D) o =>
+        if (runTx acc.2 o).2 = "=> ok" then (acc.1 ++ [o], (runTx acc.2 o).1) else acc) (pre, dd)).1 from
+    h ops [] d rfl
+  intro ops
+  induction ops with
+  | nil => intro pre dd h; simp [runTxs] at *; exact h.symm
+  | cons o os ih =>
+    intro pre dd h
+    simp only [List.foldl_cons]
+    by_cases hok : (runTx dd o).2 = "=> ok"
+    · rw [if_pos hok]
+      have : runTxs d (pre ++ [o]) = (runTx dd o).1 := by
+        unfold runTxs at *; rw [List.foldl_append, h]; rfl
+      rw [← ih (pre ++ [o]) (runTx dd o).1 this]
+      rfl
+    · rw [if_neg hok]
+      rw [← ih pre dd h]
+      show runTxs (runTx dd o).1 os = runTxs dd os
+      rw [failed_tx_changes_nothing dd o hok]
+
 end Goat.C19
